@@ -99,7 +99,7 @@ func VpC20Uploads() {
 	vp.Assert(injected == 0 || visible+vpErrLogs > 0, "an upload-storage failure was swallowed: no returned error, no error variable, no error log entry")
 	retained := keep == 1 || (keep == 2 && cut >= 2 && files > 0 && injected == 0)
 	if !retained && keep != 2 {
-		vp.Assert(vp.LiveFiles() == 0 || (errClose != nil && vp.FaultedOn("remove")), "an upload temporary file remains after Close although retention is off and its removal did not fail")
+		vp.Assert(vp.LiveFiles() == 0 || vp.FaultedOn("remove"), "an upload temporary file remains after Close although retention is off and its removal did not fail")
 	}
 	if keep == 1 && injected == 0 && cut >= 2 {
 		vp.Assert(vp.LiveFiles() == files, "SecUploadKeepFiles On did not retain the uploaded files")
